@@ -1801,7 +1801,8 @@ impl Scenario for PayloadCut {
             _ => {
                 // (3) excess padding + recovery
                 let mut cfg = GenCfg::swarm(&mut rng, false);
-                cfg.data_format = 2;
+                // both data formats (a 0xFF run after 16-byte slots is excess padding just the same)
+                cfg.data_format = if rng.chance(1, 3) { 0 } else { 2 };
                 cfg.data_pages = (2, 4);
                 cfg.p_split = 600;
                 cfg.data_words = (2, 20);
@@ -1917,16 +1918,37 @@ impl Scenario for RdhWalk {
         let mode_i = [0usize, 1, 2, 3][(case % 4) as usize];
         let its = mode_i == 1 || mode_i == 3;
         let running = mode_i >= 2;
-        let (e10, e11) = h.expected(its);
+        // a custom-checks file that pins the RDH version (to the stream's first one) must leave every
+        // other rule as it is - the ITS system-ID rule in particular
+        let pinned = if rng.chance(1, 5) { h.wire.first().map(|r| r.version) } else { None };
+        let (e10, e11) = h.expected_with_version(its, pinned);
         let im = pick_input_mode(&mut rng);
-        let mut spec = specgen::spec(im, &s(CHECK_MODES[mode_i]), h.bytes());
+        let mut parts = s(CHECK_MODES[mode_i]);
+        if pinned.is_some() {
+            parts.extend(s(&["-c", "@CHECKS@"]));
+        }
+        let mut spec = specgen::spec(im, &parts, h.bytes());
+        if let Some(v) = pinned {
+            spec.custom_checks_toml = Some(format!("rdh_version = {v}\n"));
+        }
         if rng.chance(3, 4) {
             swarm_schedule(&mut spec, &mut rng, 300 + h.wire.len() as u64 * 10);
         }
         if rng.chance(1, 3) {
             benign_io(&mut spec, &mut rng);
         }
-        Trial::RdhWalk { spec, e10, e11, running, label: format!("{} | fault rate {}%", CHECK_MODES[mode_i].join(" "), p / 10) }
+        Trial::RdhWalk {
+            spec,
+            e10,
+            e11,
+            running,
+            label: format!(
+                "{}{} | fault rate {}%",
+                CHECK_MODES[mode_i].join(" "),
+                if pinned.is_some() { " | rdh_version pinned" } else { "" },
+                p / 10
+            ),
+        }
     }
 }
 
@@ -2090,7 +2112,7 @@ impl Scenario for Faults {
                 cfg.p_internal = 1000;
                 cfg.p_split = 0;
             }
-            if matches!(name, "excess_padding" | "rdh_data_format") {
+            if name == "rdh_data_format" {
                 cfg.data_format = 2;
             }
             if !stave {
